@@ -24,6 +24,7 @@ Drain(s, take) == IF ~CanEmit(s) \/ take = 0 THEN <<>> ELSE <<s.val>> \o Drain(E
 \* ---------------------------------------------------------------- relation
 \* e.op = "vary":    from (per component, scaled SC), step, max (-1 = None), take; out: the items yielded
 \*        "vary_to": from, to, n; out
+\*        "skip":    from, step, max, how, kn, take; out (see below)
 \*        "dvdt":    from, to, rn (reciprocal dt = rn, an integer); res = (to - from) * rn
 SC == 1024
 Allowed(e) ==
@@ -40,6 +41,18 @@ Allowed(e) ==
               \A k \in 1..Len(e.out) :
                 \* item k = from + (k-1) (to - from) / n
                 Abs(e.out[k][c] * e.n - (e.from[c] * e.n + (k - 1) * (e.to[c] - e.from[c])) * SC) <= (3 + Abs(e.to[c] - e.from[c]) \div 500) * e.n
+    [] e.op = "skip" ->
+         \* the iterator consumed through an adaptor that skips items (how = "nth" k, "skip" k, "step_by" k):
+         \* out = the items that a plain drain yields at the positions the adaptor selects
+         /\ e.panic = 0
+         /\ \A c \in 1..Len(e.from) :
+              LET all == Drain([val |-> e.from[c] * SC, step |-> e.step[c] * SC, left |-> e.max], 64)
+                  hi == IF e.kn + e.take < Len(all) THEN e.kn + e.take ELSE Len(all)
+                  want == CASE e.how \in {"nth", "skip"} -> SubSeq(all, e.kn + 1, hi)      \* nth(kn), then take - 1 more
+                            [] OTHER -> LET idx == {i \in 1..Len(all) : (i - 1) % e.kn = 0} IN
+                                        [j \in 1..(IF Cardinality(idx) < e.take THEN Cardinality(idx) ELSE e.take) |-> all[(j - 1) * e.kn + 1]]
+              IN /\ Len(e.out) = Len(want)
+                 /\ \A j \in 1..Len(want) : Abs(e.out[j][c] - want[j]) <= 2 + (64 * Abs(e.step[c])) \div 1000
     [] e.op = "dvdt" ->
          /\ e.panic = 0
          /\ \A c \in 1..Len(e.from) : Abs(e.res[c] - (e.to[c] - e.from[c]) * e.rn * SC) <= 2 + Abs((e.to[c] - e.from[c]) * e.rn) \div 1000
